@@ -172,8 +172,16 @@ func (sess *hopSession) close() error {
 // handleAgc handles Intent Communications from principals and updates the outstanding authgrants maps appropriately
 func (sess *hopSession) handleAgc(tube *tubes.Reliable) {
 	defer tube.Close()
-	// TODO(baumanl): add check for authgrant?
 	logrus.Info("target: received authgrant tube")
+
+	// A session that was itself admitted through authorization grants acts for
+	// a delegate: it may only perform the actions its grants name, and no
+	// grant lets a delegate issue further grants. Principals connect with
+	// their own authorized key.
+	if sess.usingAuthGrant {
+		authgrants.WriteIntentDenied(tube, "sessions admitted through authorization grants cannot issue grants")
+		return
+	}
 
 	// Check server config (coarse grained enable/disable)
 	if !sess.server.config.EnableAuthgrants { // AuthGrants not enabled
